@@ -20,6 +20,15 @@ def rule_dispatcher_complete(ctx, rid="R5.1"):
     disp = dispatcher(prog)
     cfg = cfg_of(disp)
     r = ctx.rule(rid, "the dispatcher visits every keyword and yields every error of every keyword function", floor=3)
+    sem = c02._valsem(ctx, "dispatch_eval")
+    if sem is not None:
+        if sem["all-errors"] is None:
+            r.ok(site(disp) + " [every keyword]", "each known key is dispatched once, in order, with (validator, value, instance, schema)")
+            r.ok(site(disp) + " [every error]", "the very error objects of every keyword function are yielded, in order, none twice")
+            r.ok(site(disp) + " [none]", "a keyword function returning None, or no errors, contributes nothing and stops nothing")
+        else:
+            r.fail("%s|loop-exit:semantic" % disp.qual, site(disp), sem["all-errors"])
+        return r
     loop, dnode, dcall = c02.keyword_loop(prog, disp)
     body = loop_body_nodes(cfg, loop)
     # 1. no early exit from the keyword loop
